@@ -82,3 +82,27 @@ pub fn p_anti_join() -> impl Sized {
         source_iter([1u32]) -> [neg]aj;
     }
 }
+
+pub fn p_zip_tick_tick() -> impl Sized {
+    dfir_syntax! {
+        z = zip::<'tick, 'tick>() -> for_each(|x: (u32, u32)| drop(x));
+        source_iter([1u32, 2]) -> [0]z;
+        source_iter([3u32]) -> [1]z;
+    }
+}
+
+pub fn p_zip_static_static() -> impl Sized {
+    dfir_syntax! {
+        z = zip::<'static, 'static>() -> for_each(|x: (u32, u32)| drop(x));
+        source_iter([1u32, 2]) -> [0]z;
+        source_iter([3u32]) -> [1]z;
+    }
+}
+
+pub fn p_anti_join_static() -> impl Sized {
+    dfir_syntax! {
+        aj = anti_join::<'static, 'static>() -> for_each(|x: (u32, u32)| drop(x));
+        source_iter([(1u32, 1u32), (2, 2)]) -> [pos]aj;
+        source_iter([1u32]) -> [neg]aj;
+    }
+}
